@@ -217,23 +217,23 @@ func (c *CFG) Reach(from Loc, to func(Loc) bool, opt ReachOpt) (bool, []Loc) {
 			l := Loc{b, i}
 			if i == -1 {
 				// start-of-block pseudo location
-				if to(l) {
-					items = append(items, item{l, qi})
-					return true, witness(len(items) - 1)
-				}
 				if opt.CutLoc != nil && opt.CutLoc(l) {
 					blocked = true
 					break
 				}
+				if to(l) {
+					items = append(items, item{l, qi})
+					return true, witness(len(items) - 1)
+				}
 				continue
-			}
-			if to(l) {
-				items = append(items, item{l, qi})
-				return true, witness(len(items) - 1)
 			}
 			if opt.CutLoc != nil && opt.CutLoc(l) {
 				blocked = true
 				break
+			}
+			if to(l) {
+				items = append(items, item{l, qi})
+				return true, witness(len(items) - 1)
 			}
 		}
 		if blocked {
